@@ -47,8 +47,8 @@ ASSUMPTIONS = [
     'Rock Ridge images use version 1.09 (the library\'s documented default recommendation)',
 ]
 SHARDS = {'quick': 16, 'thorough': 16}
-CASES = {'quick': 2500, 'thorough': 45000}
-MIN_NONTRIVIAL = {'quick': 5000, 'thorough': 50000}
+CASES = {'quick': 2500, 'thorough': 30000}
+MIN_NONTRIVIAL = {'quick': 5000, 'thorough': 40000}
 
 EXPANDERS = 'ßŉǰﬁİ'
 
